@@ -531,7 +531,7 @@ def register(reg):
             post=post_step,
             inline=["Invocable._step"],
             raises=[C.Raises("RejectSimulationException", mode="may")],
-            replay=replay_terminate_after,
+            replay=replay_scenario_step,
             bounded=True,
             note="bounded: two temporal requirements, two `terminate when` conditions, one agent; elapsed time and limit symbolic",
             properties=("C12",),
@@ -584,6 +584,7 @@ def register(reg):
             setup=setup_ta,
             post=post_ta,
             inline=["DynamicScenario._setTimeLimit", "DynamicScenario._start", "Invocable._start", "Invocable._finalizeArguments", "startScenario"],
+            replay=replay_terminate_after,
             properties=("C12",),
         )
     )
@@ -736,7 +737,7 @@ def register(reg):
         else:
             eng.check(f"{name}#ensures.none_when_every_monitor_waits", res is None)
 
-    reg.add(C.Contract(f"{DS}:DynamicScenario._runMonitors", params=dict(self=C.Const(None)), setup=setup_mon, post=post_mon, bounded=True, note="bounded: two monitors and one sub-scenario", properties=("C12",)))
+    reg.add(C.Contract(f"{DS}:DynamicScenario._runMonitors", params=dict(self=C.Const(None)), setup=setup_mon, post=post_mon, replay=replay_monitors, bounded=True, note="bounded: two monitors and one sub-scenario", properties=("C12",)))
 
     # =============================================================================== Behavior._step
     def setup_bstep(I, env):
@@ -807,7 +808,7 @@ def register(reg):
         got = 0 if res is reqs[0] else 1 if res is reqs[1] else -1
         eng.check(f"{name}#ensures.first_satisfied_condition_in_program_order_else_none", want == got)
 
-    reg.add(C.Contract(f"{DS}:DynamicScenario._checkSimulationTerminationConditions", params=dict(self=C.Const(None)), setup=setup_stc, post=post_stc, properties=("C12",)))
+    reg.add(C.Contract(f"{DS}:DynamicScenario._checkSimulationTerminationConditions", params=dict(self=C.Const(None)), setup=setup_stc, post=post_stc, replay=replay_simulation_termination_conditions, properties=("C12",)))
 
 
 def register_stop_and_startup(reg):
@@ -1014,7 +1015,7 @@ log = builtins._pyvc_log
 behavior B(name):
     i = 0
     while True:
-        log.append(("behavior", name, simulation().currentTime))
+        log.append(("behavior", name, simulation().currentTime, tuple(self.lastActions)))
         take i
         i += 1
 monitor M():
@@ -1062,9 +1063,91 @@ def replay_run_order(inputs, clause):
         res = sim.result
         if len(res.trajectory) != sim.currentTime + 1 or len(res.actions) != sim.currentTime or sim.currentTime != 3:
             return f"currentTime {sim.currentTime}, {len(res.trajectory)} states, {len(res.actions)} action entries with maxSteps=3"
-        for e in log:
+        if res.terminationType.name != "timeLimit":
+            return f"a run stopped by maxSteps=3 reports termination type {res.terminationType.name}"
+        for i, e in enumerate(log):
             if e[0] == "executeActions" and not (e[2] == e[1] + 1 and e[3] == e[1] + 1):
                 return f"at step {e[1]} executeActions saw {e[2]} action entries and {e[3]} states"
+            if e[0] == "behavior" and e[3] != ():
+                return f"at step {e[2]} the behavior of {e[1]} found its lastActions = {e[3]} (documented: cleared before the behaviors run)"
+            if e[0] == "simulator_step":
+                nxt = [x for x in log[i + 1 :] if x[0] == "getProperties"][:1]
+                if nxt and nxt[0][1] != e[1] + 1:
+                    return f"after the simulator step of time step {e[1]} the dynamic properties were read back with currentTime = {nxt[0][1]} (documented: clock incremented, then update)"
+    # the documented stopping points and how they are reported
+    for extra, want_type, want_time, what in (
+        ("monitor T():\n    wait\n    terminate simulation\nrequire monitor T()\n", "terminatedByMonitor", 1, "a monitor executing `terminate simulation` at step 1"),
+        ("behavior S():\n    take 1\n    terminate simulation\nother = new Object at (20, 20), with behavior S\n", "terminatedByBehavior", 1, "a behavior executing `terminate simulation` at step 1"),
+        ("terminate simulation when simulation().currentTime >= 2\n", "simulationTerminationCondition", 2, "`terminate simulation when currentTime >= 2`"),
+    ):
+        src = "behavior B():\n    while True:\n        take 1\nego = new Object with behavior B\n" + extra
+        sc = scenic.scenarioFromString(src)
+        scene, _ = sc.generate()
+        try:
+            sim = _logging_simulator([]).simulate(scene, maxSteps=6)
+        except AssertionError as e:
+            return f"{what}: the simulation fails with an AssertionError in Simulation._run"
+        if sim.result.terminationType.name != want_type or sim.currentTime != want_time:
+            return f"{what}: the simulation ended at step {sim.currentTime} with termination type {sim.result.terminationType.name}; documented: step {want_time}, {want_type}"
+    return None
+
+
+def replay_scenario_step(inputs, clause):
+    """Real programs for the checks of one scenario step: terminate after / terminate when / temporal requirements."""
+    import scenic
+    from scenic.core.simulators import DummySimulator
+
+    r = replay_terminate_after(inputs, clause)
+    if r:
+        return r
+    base = "behavior B():\n    while True:\n        take 1\nego = new Object with behavior B\n"
+
+    def run(extra, steps=6):
+        sc = scenic.scenarioFromString(base + extra)
+        scene, _ = sc.generate()
+        return DummySimulator(drift=1).simulate(scene, maxSteps=steps, maxIterations=1)  # objects drift: y = time step
+
+    sim = run("terminate when simulation().currentTime >= 2\n")
+    if sim is None or sim.currentTime != 2:
+        return f"`terminate when currentTime >= 2` ended the simulation at step {getattr(sim, 'currentTime', 'rejected')}; documented: 2"
+    sim = run("require eventually ego.position.y >= 2\n", steps=4)
+    if sim is None:
+        return "`require eventually ego.position.y >= 2` (y = time step) rejected a simulation of 4 steps (the requirement is satisfied at step 2; it may only reject when it can no longer be satisfied)"
+    sim = run("require always ego.position.y < 2\n", steps=4)
+    if sim is not None:
+        return "`require always ego.position.y < 2` (y = time step) did not reject a simulation of 4 steps"
+    return None
+
+
+def replay_monitors(inputs, clause):
+    """Two monitors: the first executes `terminate`, the second `terminate simulation` in the same step."""
+    import scenic
+    from scenic.core.simulators import DummySimulator
+
+    src = (
+        "behavior B():\n    while True:\n        take 1\n"
+        "monitor M1():\n    wait\n    terminate\nmonitor M2():\n    wait\n    terminate simulation\n"
+        "ego = new Object with behavior B\nrequire monitor M1()\nrequire monitor M2()\n"
+    )
+    sc = scenic.scenarioFromString(src)
+    scene, _ = sc.generate()
+    sim = DummySimulator().simulate(scene, maxSteps=5)
+    res = sim.result
+    if sim.currentTime != 1 or res.terminationType.name != "terminatedByMonitor" or "terminate simulation" not in str(res.terminationReason):
+        return f"monitors executing `terminate` and `terminate simulation` in step 1: ended at step {sim.currentTime}, type {res.terminationType.name}, reason {res.terminationReason!s}; documented: terminate simulation is reported"
+    return None
+
+
+def replay_simulation_termination_conditions(inputs, clause):
+    import scenic
+    from scenic.core.simulators import DummySimulator
+
+    src = "behavior B():\n    while True:\n        take 1\nego = new Object with behavior B\nterminate simulation when simulation().currentTime >= 3\nterminate simulation when simulation().currentTime >= 2\n"
+    sc = scenic.scenarioFromString(src)
+    scene, _ = sc.generate()
+    sim = DummySimulator().simulate(scene, maxSteps=6)
+    if sim.currentTime != 2 or sim.result.terminationType.name != "simulationTerminationCondition":
+        return f"`terminate simulation when` conditions (>= 3, >= 2): ended at step {sim.currentTime} with {sim.result.terminationType.name}; documented: step 2, simulationTerminationCondition"
     return None
 
 
